@@ -40,7 +40,7 @@ Step(e) ==
                        ELSE "a set-attributes request changed an attribute whose flag it does not carry, or left one it carries")
          /\ UNCHANGED bad
     [] e.ev = "LongName" -> \* the long name of a listed entry against the structured attributes sent with it
-         /\ c17' = Set(c17, (FromWire(e.w).typ # "other" /\ e.str # LongPerm(FromWire(e.w))) \/ ~e.sizeok \/ ~e.nameok,
+         /\ c17' = Set(c17, (FromWire(e.w).typ # "other" /\ e.str # LongPerm(FromWire(e.w))) \/ ~e.sizeok \/ ~e.nameok \/ ~e.ownerok,
                        "the long name of a listed entry disagrees with its structured attributes")
          /\ UNCHANGED bad
     [] e.ev \in {"Req", "Resp", "Setup", "ServeRet", "ConnClose", "PmFini", "Note"} -> UNCHANGED <<bad, c17>>
